@@ -93,7 +93,7 @@ theorem File.length_read (f : File) (off n : Nat) : (f.read off n).length = min 
 
 /-! ## name space -/
 
-inductive Node | dir | file (ino : Nat)
+inductive Node | dir | file (ino : Nat) | fifo (id : Nat)
   deriving DecidableEq, Repr, Inhabited
 
 /-- The name space below the process's working directory: path components ↦ node.  The
@@ -137,11 +137,12 @@ def FS.walkPrefix (fs : FS) : List Bytes → List Bytes → Option Errno
     match fs.node? (pre ++ [c]) with
     | none => some .ENOENT
     | some (.file _) => some .ENOTDIR
+    | some (.fifo _) => some .ENOTDIR
     | some .dir => fs.walkPrefix (pre ++ [c]) (c' :: cs)
 
 /-! ## open file descriptions, process state -/
 
-inductive Target | file (ino : Nat) | dir (path : List Bytes)
+inductive Target | file (ino : Nat) | dir (path : List Bytes) | fifo (id : Nat)
   deriving DecidableEq, Repr, Inhabited
 
 structure OFD where
@@ -156,6 +157,7 @@ structure State where
   fds : List (Option OFD)                 -- descriptor table of the process; index = descriptor
   dirs : List (Option (List Bytes))       -- directory streams (`DIR*`); index = handle
   maxBytes : Nat                          -- largest file offset of the file system (`s_maxbytes`)
+  pipes : List Bytes := []                -- FIFOs / pipes (non-seekable): index = id, content = buffered bytes
 
 def State.ofd? (s : State) (fd : Int) : Option OFD :=
   if fd < 0 then none else (s.fds[fd.toNat]?).join
@@ -200,6 +202,13 @@ def State.open (s : State) (path : Bytes) (acc : Acc) (flags : List OFlag) : Sta
         else
           let (s', fd) := s.install ⟨.dir cs, 0, acc, status⟩
           (s', .ok fd)
+      | some (.fifo id) =>
+        -- a FIFO whose other end is open: `open` does not block; O_TRUNC has no effect
+        if flags.contains .creat && flags.contains .excl then (s, .err .EEXIST)
+        else if flags.contains .directory then (s, .err .ENOTDIR)
+        else
+          let (s', fd) := s.install ⟨.fifo id, 0, acc, status⟩
+          (s', .ok fd)
       | some (.file ino) =>
         if flags.contains .creat && flags.contains .excl then (s, .err .EEXIST)
         else if flags.contains .directory then (s, .err .ENOTDIR)
@@ -222,6 +231,12 @@ def State.read (s : State) (fd : Int) (n : Nat) : State × R Bytes :=
     if !o.acc.canRead then (s, .err .EBADF) else
     match o.tgt with
     | .dir _ => (s, .err .EISDIR)
+    | .fifo id =>
+      -- a pipe with a writer: the buffered bytes, EAGAIN when empty and O_NONBLOCK (blocking is not modelled)
+      let buf := s.pipes.getD id []
+      if n = 0 then (s, .ok [])
+      else if buf.isEmpty then (if o.flags.contains .nonblock then (s, .err .EAGAIN) else (s, .unmodelled))
+      else ({ s with pipes := s.pipes.set id (buf.drop n) }, .ok (buf.take n))
     | .file ino =>
       match s.fs.file? ino with
       | none => (s, .err .EIO)
@@ -250,6 +265,11 @@ def State.write (s : State) (fd : Int) (bs : Bytes) : State × R Nat :=
     if !o.acc.canWrite then (s, .err .EBADF) else
     match o.tgt with
     | .dir _ => (s, .err .EBADF)
+    | .fifo id =>
+      -- a pipe with a reader and room for the data (PIPE_BUF-sized writes; a full pipe is not modelled)
+      let buf := s.pipes.getD id []
+      if buf.length + bs.length > 4096 then (s, .unmodelled)
+      else ({ s with pipes := s.pipes.set id (buf ++ bs) }, .ok bs.length)
     | .file ino =>
       match s.fs.file? ino with
       | none => (s, .err .EIO)
@@ -268,6 +288,7 @@ def State.lseek (s : State) (fd : Int) (off : Int) (w : Whence) : State × R Nat
   | some o =>
     match o.tgt with
     | .dir _ => (s, .unmodelled)
+    | .fifo _ => (s, .err .ESPIPE)
     | .file ino =>
       match s.fs.file? ino with
       | none => (s, .err .EIO)
@@ -284,10 +305,11 @@ def State.pread (s : State) (fd : Int) (n : Nat) (off : Int) : State × R Bytes 
   match s.ofd? fd with
   | none => (s, .err .EBADF)
   | some o =>
-    if !o.acc.canRead then (s, .err .EBADF) else
     match o.tgt with
-    | .dir _ => (s, .err .EISDIR)
+    | .fifo _ => (s, .err .ESPIPE)          -- (LINUX) no FMODE_PREAD: ESPIPE whatever the access mode
+    | .dir _ => if !o.acc.canRead then (s, .err .EBADF) else (s, .err .EISDIR)
     | .file ino =>
+      if !o.acc.canRead then (s, .err .EBADF) else
       match s.fs.file? ino with
       | none => (s, .err .EIO)
       | some f => (s, .ok (f.read off.toNat n))
@@ -299,10 +321,11 @@ def State.pwrite (s : State) (fd : Int) (bs : Bytes) (off : Int) : State × R Na
   match s.ofd? fd with
   | none => (s, .err .EBADF)
   | some o =>
-    if !o.acc.canWrite then (s, .err .EBADF) else
     match o.tgt with
+    | .fifo _ => (s, .err .ESPIPE)
     | .dir _ => (s, .err .EBADF)
     | .file ino =>
+      if !o.acc.canWrite then (s, .err .EBADF) else
       match s.fs.file? ino with
       | none => (s, .err .EIO)
       | some f =>
@@ -317,11 +340,12 @@ structure Stat where
   isDir : Bool
   size : Nat
   nlink : Nat
+  isFifo : Bool := false
   deriving Repr, Inhabited, DecidableEq
 
 /-- directory size and link count are host-determined; fixed stand-ins (the harness
     canonicalises the real values to the same constants) -/
-def dirStat : Stat := ⟨true, 0x7777, 0x66⟩
+def dirStat : Stat := ⟨true, 0x7777, 0x66, false⟩
 
 def State.fstat (s : State) (fd : Int) : R Stat :=
   match s.ofd? fd with
@@ -329,10 +353,11 @@ def State.fstat (s : State) (fd : Int) : R Stat :=
   | some o =>
     match o.tgt with
     | .dir _ => .ok dirStat
+    | .fifo _ => .ok ⟨false, 0, 1, true⟩
     | .file ino =>
       match s.fs.file? ino with
       | none => .err .EIO
-      | some f => .ok ⟨false, f.size, 1⟩
+      | some f => .ok ⟨false, f.size, 1, false⟩
 
 def State.stat (s : State) (path : Bytes) : R Stat :=
   match parsePath path with
@@ -345,10 +370,11 @@ def State.stat (s : State) (path : Bytes) : R Stat :=
       match s.fs.node? cs with
       | none => .err .ENOENT
       | some .dir => .ok dirStat
+      | some (.fifo _) => .ok ⟨false, 0, 1, true⟩
       | some (.file ino) =>
         match s.fs.file? ino with
         | none => .err .EIO
-        | some f => .ok ⟨false, f.size, 1⟩
+        | some f => .ok ⟨false, f.size, 1, false⟩
 
 def State.fcntlGetfl (s : State) (fd : Int) : R (Acc × List OFlag) :=
   match s.ofd? fd with
@@ -383,8 +409,15 @@ def State.mkfile (s : State) (cs : List Bytes) (bs : Bytes) : State :=
   match s.fs.node? cs with
   | some (.file ino) => { s with fs := s.fs.setFile ino (fileOfBytes bs) }
   | some .dir => s
+  | some (.fifo _) => s
   | none =>
     { s with fs := { nodes := s.fs.nodes ++ [(cs, .file s.fs.files.length)], files := s.fs.files ++ [fileOfBytes bs] } }
+
+/-- `mkfifo` (setup): a new FIFO with an empty buffer; the harness keeps both ends open -/
+def State.mkfifo (s : State) (cs : List Bytes) : State :=
+  match s.fs.node? cs with
+  | some _ => s
+  | none => { s with fs := { s.fs with nodes := s.fs.nodes ++ [(cs, .fifo s.pipes.length)] }, pipes := s.pipes ++ [[]] }
 
 def State.mkdir (s : State) (cs : List Bytes) : State :=
   match s.fs.node? cs with
